@@ -15,6 +15,7 @@ package match
 
 import (
 	"errors"
+	"sort"
 	"strings"
 )
 
@@ -213,7 +214,18 @@ func (m *Matcher) mapcatMatch(bss []Bindings, pattern map[string]interface{}, fa
 		return nil, err
 	}
 
-	for k, v := range pattern {
+	// Visit the pattern's properties in sorted order so that the
+	// result (which bindings a repeated variable gets, and whether a
+	// non-match or an error is reported) is a function of the
+	// arguments and not of Go's map iteration order.
+	keys := make([]string, 0, len(pattern))
+	for k := range pattern {
+		keys = append(keys, k)
+	}
+	sort.Strings(keys)
+
+	for _, k := range keys {
+		v := pattern[k]
 		if m.IsVariable(k) {
 			if m.AllowPropertyVariables {
 				if len(pattern) == 1 {
